@@ -258,6 +258,22 @@ func lessDirEnt(i, j interface{}) bool {
 	return false
 }
 
+// SameName reports whether two stream or storage names denote the same entry
+// of a storage, i.e. compare equal under the MS-CFB 2.6.4 directory ordering
+// (length, then upper-cased UTF-16 code units).
+func SameName(a, b string) bool {
+	ra, rb := utf16.Encode([]rune(a)), utf16.Encode([]rune(b))
+	if len(ra) != len(rb) {
+		return false
+	}
+	for k := range ra {
+		if upperUnit(ra[k]) != upperUnit(rb[k]) {
+			return false
+		}
+	}
+	return true
+}
+
 func upperUnit(u uint16) uint16 {
 	if u >= 0xd800 && u <= 0xdfff {
 		// surrogate halves are compared as they are
